@@ -91,3 +91,4 @@ Example C04_nonvacuous :
 Proof.
   repeat split; try (apply mem_in); vm_compute; reflexivity.
 Qed.
+
